@@ -10,32 +10,48 @@ whatever differs is judged by TLC itself with the reference meaning of
 Console.tla (ConsoleJudge.tla: same statements, once each, in order, equal up
 to whitespace between tokens, literals intact) - accepted differences are
 drift (NOTE), rejected ones are violations.
+
+Code -> spec (long inputs): seeded random statement lists over the same
+vocabulary (words, blanks, both quotes, backslash escapes, semicolons and line
+breaks) plus multi-byte characters inside literals, 200..1200 bytes long and
+built so that multi-byte characters straddle the console's 256-byte read
+boundaries in every possible way, are fed as one paste under nine read
+schedules (among them readers returning at most 256 / 100 / 7 bytes per Read).
+There is no machine prediction for them: every output is judged by TLC
+(ConsoleJudge.tla) against the reference meaning, byte for byte in literals.
 """
 import json
 import os
+import random
 
 import vlib
 
-# tier -> list of (Letters, MaxKeys, MaxEnters)
+# tier -> list of (Letters, Extra, MaxKeys, MaxEnters); Extra = {92} puts the backslash into the alphabet
 MC = {
-    "quick": [("{97}", 8, 3), ("{97, 98}", 7, 2)],
-    "thorough": [("{97}", 10, 4), ("{97, 98}", 9, 3)],
+    "quick": [("{97}", "{92}", 8, 3), ("{97, 98}", "{}", 7, 2)],
+    "thorough": [("{97}", "{92}", 9, 4), ("{97}", "{}", 10, 4), ("{97, 98}", "{}", 9, 3)],
 }
 MODES = ["typed", "lines", "paste", "bracketed", "bracketed_enter", "bracketed4"]
+# long random inputs (code -> spec): number of inputs per tier and their read schedules
+LONG = {"quick": 96, "thorough": 720}
+LONG_MODES = MODES + ["max256", "max100", "max7"]
+LONG_LEN = (200, 1200)
+READ_BUF = 256            # Terminal.inBuf
+MULTIBYTE = ["é", "ß", "東", "€", "😀", "𝄞"]    # 2, 2, 3, 3, 4, 4 bytes in UTF-8
+STRADDLES = [(2, 1), (3, 1), (3, 2), (4, 1), (4, 2), (4, 3)]   # (bytes of the character, bytes before the boundary)
 FINDING = "semicolon-in-quotes"
 PER_SIGNATURE = 3        # replay files written per failure signature (shortest inputs first)
 JUDGE_SAMPLE = 2000      # outputs equal to the named deviation that are put before the judge again, per configuration
 
-NAMES = {13: "⏎", 32: " ", 59: ";", 39: "'", 34: '"'}
-
-
 def text(bs):
-    return "".join(NAMES.get(b, chr(b)) for b in bs)
+    """Byte values -> readable text (Enter shown as ⏎); display only."""
+    return bytes(bs).decode("utf-8", "replace").replace("\r", "⏎")
 
 
-def mc_cfg(letters, maxkeys, maxenters):
+def mc_cfg(letters, extra, maxkeys, maxenters):
     return """CONSTANTS
   Letters = %s
+  Extra = %s
   MaxKeys = %d
   MaxEnters = %d
   EmitOn = TRUE
@@ -44,11 +60,12 @@ NEXT MCNext
 ACTION_CONSTRAINT Emit
 INVARIANTS TypeOK OutIsPrefix Faithful BufIsRest TaintExact TaintViolates
 CHECK_DEADLOCK FALSE
-""" % (letters, maxkeys, maxenters)
+""" % (letters, extra, maxkeys, maxenters)
 
 
 JUDGE_CFG = """CONSTANTS
   Letters = {97}
+  Extra = {}
 INIT JInit
 NEXT JNext
 CHECK_DEADLOCK FALSE
@@ -59,19 +76,37 @@ def kinds_of(keys):
     """Coverage classification of one input (vacuity measurement only, never a verdict)."""
     ks = set()
     q = 0
+    esc = False
+    last_esc_bs = False
     line_terms = 0
     stmt_has_cr = False
     for c in keys:
         if q:
+            if esc:
+                esc = False
+                ks.add("escaped_quote" if c == q else "escaped_backslash" if c == 92 else
+                       "escaped_semicolon" if c == 59 else "escaped_other")
+                last_esc_bs = c == 92
+                continue
+            if c == 92:
+                esc = True
+                ks.add("backslash_in_literal")
+                last_esc_bs = False
+                continue
             if c == 59:
                 ks.add("semicolon_in_literal")
             elif c == 32:
                 ks.add("space_in_literal")
             elif c in (39, 34) and c != q:
                 ks.add("other_quote_in_literal")
+            elif c >= 128:
+                ks.add("multibyte_in_literal")
             if c == q:
                 q = 0
                 ks.add("literal")
+                if last_esc_bs:
+                    ks.add("literal_ends_in_escaped_backslash")
+            last_esc_bs = False
             continue
         if c in (39, 34):
             q = c
@@ -92,6 +127,8 @@ def kinds_of(keys):
             stmt_has_cr = True
         elif c == 32:
             ks.add("space")
+        elif c == 92:
+            ks.add("backslash_outside_literal")
         else:
             ks.add("letter")
     return ks
@@ -99,7 +136,16 @@ def kinds_of(keys):
 
 NEED_KINDS = ["letter", "space", "terminator", "enter", "quote_39", "quote_34", "literal", "semicolon_in_literal",
               "space_in_literal", "other_quote_in_literal", "several_statements_on_one_line",
-              "statement_across_lines", "enter_without_terminator"]
+              "statement_across_lines", "enter_without_terminator", "backslash_in_literal", "escaped_quote",
+              "escaped_backslash", "escaped_semicolon", "literal_ends_in_escaped_backslash", "backslash_outside_literal"]
+NEED_KINDS_LONG = NEED_KINDS + ["multibyte_in_literal"]
+
+
+def scn_line(s):
+    d = dict(id=s["id"], keys=s["keys"])
+    if s.get("modes"):
+        d["modes"] = s["modes"]
+    return d
 
 
 def run_harness(ctx, scn_path, out_path, n):
@@ -192,24 +238,32 @@ def report(ctx, rejected, results2=None):
     groups = {}
     for x in rejected:
         s, r = x["scn"], x["run"]
-        known = bool(s["taint"]) and s.get("naive") is not None and r["obs"] == s["naive"] and not r.get("err")
+        known = bool(s.get("taint")) and s.get("naive") is not None and r["obs"] == s["naive"] and not r.get("err")
         if known:
             sig = FINDING
         elif r.get("err"):
             sig = "error:" + r["err"][:40]
         else:
-            sig = "wrong-statements" + ("/count" if not x["verdict"]["count"] else "") + \
-                  ("/literal" if not x["verdict"]["literals"] else "")
+            sig = ("long-input/" if s.get("long") else "") + "wrong-statements" + \
+                  ("/count" if not x["verdict"]["count"] else "") + ("/literal" if not x["verdict"]["literals"] else "")
         groups.setdefault(sig, []).append(x)
     for sig, xs in sorted(groups.items()):
         xs.sort(key=lambda x: (len(x["scn"]["keys"]), x["scn"]["keys"]))
         for x in xs[:PER_SIGNATURE]:
             s, r = x["scn"], x["run"]
             payload = dict(kind="console-replay", signature=sig, failures_with_this_signature=len(xs),
-                           keys=s["keys"], input=text(s["keys"]), read_schedules=r["m"],
-                           expected=[text(e) for e in s["exp"]], observed=[text(o) for o in r["obs"]],
-                           expected_bytes=s["exp"], observed_bytes=r["obs"], harness_error=r.get("err", ""),
-                           buffer_left=text(r.get("left") or []), taint=s["taint"], tlc_verdict=x["verdict"],
+                           detail=["%s: input %r (%d bytes) under %s: observed %r%s" % (
+                               sig, text(s["keys"])[:120], len(s["keys"]), ",".join(r["m"]), [text(o) for o in r["obs"]][:6],
+                               (", expected %r" % [text(e) for e in s["exp"]]) if "exp" in s else
+                               (", differs near %r vs %r" % (x["diff"]["input_there"], x["diff"]["observed_there"])) if x.get("diff") else "")],
+                           keys=s["keys"], input=text(s["keys"]), input_bytes=len(s["keys"]), read_schedules=r["m"],
+                           modes=s.get("modes") or MODES,
+                           expected=[text(e) for e in s["exp"]] if "exp" in s else
+                           "the %s statements of the input, cut at semicolons outside literals (StmtsOf in Console.tla)" % x["verdict"].get("stmts"),
+                           observed=[text(o) for o in r["obs"]],
+                           expected_bytes=s.get("exp"), observed_bytes=r["obs"], harness_error=r.get("err", ""),
+                           buffer_left=text(r.get("left") or []), taint=s.get("taint", []), tlc_verdict=x["verdict"],
+                           first_difference=x.get("diff"),
                            how="keys are byte values fed to Terminal.ReadLine (13 = Enter, shown as ⏎); expected = statements "
                                "Console.tla hands over; the rejection was decided by TLC (ConsoleJudge.tla)")
             vlib.report_violation(ctx, payload, signature=sig, finding_ids=[FINDING] if sig == FINDING else [])
@@ -228,7 +282,7 @@ def confirm(ctx, rejected, tag):
     scn_path, out_path = os.path.join(d, "scn.ndjson"), os.path.join(d, "out.ndjson")
     with open(scn_path, "w") as f:
         for s in scns:
-            f.write(json.dumps(dict(id=s["id"], keys=s["keys"])) + "\n")
+            f.write(json.dumps(scn_line(s)) + "\n")
     again = run_harness(ctx, scn_path, out_path, len(scns))
     kept = []
     for x in rejected:
@@ -243,10 +297,197 @@ def confirm(ctx, rejected, tag):
     return kept
 
 
+# ---------------------------------------------------------------- long inputs (code -> spec)
+
+def gen_long(rng, target, cycle):
+    """One input of about `target` bytes: statements over the specification's vocabulary, multi-byte
+    characters only inside literals, line breaks only outside.  Around every read boundary of a
+    plain paste (the console reads into a 256-byte buffer, after whatever partial character it kept)
+    a literal full of multi-byte characters is placed so that one of them straddles the boundary in
+    the way `cycle` asks for next.  Returns (bytes, planned straddles)."""
+    out = bytearray()
+    nb = READ_BUF          # next read boundary of a plain paste
+    planned = []
+
+    def word():
+        w = bytes(rng.choice(b"abcdefgh") for _ in range(rng.randint(1, 6)))
+        if rng.random() < 0.06:
+            w += b"\\"      # a backslash outside literals is an ordinary character
+        return w
+
+    def literal(boundary=None):
+        nonlocal nb
+        q = rng.choice(b"'\"")
+        other = 34 if q == 39 else 39
+        out.append(q)
+        if boundary is not None:
+            ordinal = len(planned)
+            ln, before = cycle[ordinal][0]
+            cycle[ordinal].append(cycle[ordinal].pop(0))
+            while len(out) + 4 <= boundary - before and rng.random() < 0.7:
+                out.extend(rng.choice(MULTIBYTE).encode())
+            out.extend(b"x" * (boundary - before - len(out)))
+            out.extend(rng.choice([m for m in MULTIBYTE if len(m.encode()) == ln]).encode())
+            while len(out) < boundary + 8:
+                out.extend(rng.choice(MULTIBYTE).encode())
+            planned.append((boundary, ln, before))
+            nb = boundary + READ_BUF - before
+        else:
+            for _ in range(rng.randint(0, 9)):
+                k = rng.random()
+                if k < 0.32:
+                    out.extend(bytes(rng.choice(b"abcdefgh") for _ in range(rng.randint(1, 5))))
+                elif k < 0.46:
+                    out.append(32)
+                elif k < 0.56:
+                    out.append(59)
+                elif k < 0.64:
+                    out.append(other)
+                elif k < 0.72:
+                    out.extend(bytes([92, q]))
+                elif k < 0.80:
+                    out.extend(b"\\\\")
+                elif k < 0.85:
+                    out.extend(b"\\;")
+                else:
+                    out.extend(rng.choice(MULTIBYTE).encode())
+            if rng.random() < 0.3:
+                out.extend(b"\\\\")       # the literal ends in an escaped backslash
+        out.append(q)
+
+    while len(out) < target:
+        for _ in range(rng.randint(1, 5)):
+            if nb - 16 <= len(out) < nb - 5:
+                literal(nb)
+            elif nb - 90 <= len(out) < nb - 16:
+                out.extend(word()[:6])
+            elif rng.random() < 0.45:
+                literal()
+            else:
+                out.extend(word())
+            k = rng.random()
+            out.extend(b"\r" if k < 0.10 else b" ")
+        out.append(59)
+        k = rng.random()
+        if k < 0.35:
+            out.append(13)
+        elif k < 0.75:
+            out.append(32)
+    out.append(13)
+    return bytes(out), planned
+
+
+def paste_straddles(data):
+    """Which multi-byte characters straddle the read boundaries of a plain paste of `data`
+    (coverage measurement by simulating the console's read sizes; never a verdict)."""
+    starts = {}
+    i = 0
+    while i < len(data):
+        b = data[i]
+        ln = 1 if b < 0x80 else 2 if b < 0xE0 else 3 if b < 0xF0 else 4
+        for k in range(1, ln):
+            starts[i + k] = (ln, k)        # a boundary at offset i+k cuts this character after k bytes
+        i += ln
+    found = []
+    pos, rem, ordinal = 0, 0, 0
+    while pos < len(data):
+        pos += READ_BUF - rem
+        ordinal += 1
+        if pos >= len(data):
+            break
+        if pos in starts:
+            ln, k = starts[pos]
+            found.append((ordinal, ln, k))
+            rem = k
+        else:
+            rem = 0
+    return found
+
+
+def first_diff(want_text, got):
+    """Where the observed statements start to differ from the input, blanks and line breaks ignored
+    (display aid for the replay file only)."""
+    a = want_text.replace("⏎", "").replace(" ", "")
+    joined = "".join(got).replace(" ", "")
+    n = 0
+    while n < len(a) and n < len(joined) and a[n] == joined[n]:
+        n += 1
+    return dict(ignoring="blanks and line breaks", common_prefix_chars=n, input_there=a[max(0, n - 25):n + 25],
+                observed_there=joined[max(0, n - 25):n + 25])
+
+
+def run_long(ctx, cov):
+    rng = random.Random(ctx.seed * 7919 + 20)
+    n = LONG[ctx.tier]
+    cycle = [list(STRADDLES[i % len(STRADDLES):] + STRADDLES[:i % len(STRADDLES)]) for i in range(8)]
+    lc = cov["long"]
+    scns = []
+    for i in range(n):
+        target = LONG_LEN[0] + (i * 389) % (LONG_LEN[1] - LONG_LEN[0] - 60)
+        if i % 4 == 3:
+            target = LONG_LEN[1] - 70 - (i % 40)       # enough inputs that reach the fourth boundary
+        data, planned = gen_long(rng, target, cycle)
+        scns.append(dict(id=i + 1, keys=list(data), modes=LONG_MODES, long=True))
+        for st in paste_straddles(data):
+            key = "boundary%d:char%d:cut%d" % st
+            lc["straddles"][key] = lc["straddles"].get(key, 0) + 1
+            lc["multibyte_straddling_a_read_boundary"] += 1
+        for k in kinds_of(data):
+            lc["kinds"][k] = lc["kinds"].get(k, 0) + 1
+    lens = [len(s["keys"]) for s in scns]
+    lc.update(inputs=n, bytes_min=min(lens), bytes_max=max(lens))
+    if lc["bytes_min"] > 300 or lc["bytes_max"] < 1100 or lc["bytes_max"] > 1300:
+        raise vlib.Undecided("long inputs: lengths %d..%d do not span 200..1200" % (lc["bytes_min"], lc["bytes_max"]))
+    for b in range(1, 5):
+        for (ln, k) in STRADDLES:
+            if lc["straddles"].get("boundary%d:char%d:cut%d" % (b, ln, k), 0) == 0:
+                raise vlib.Undecided("vacuous: no long input cuts a %d-byte character after %d bytes at read boundary %d" % (ln, k, b))
+    for k in NEED_KINDS_LONG:
+        if lc["kinds"].get(k, 0) == 0:
+            raise vlib.Undecided("vacuous: no long input exercised '%s'" % k)
+
+    d = ctx.sub("c20-long")
+    scn_path, out_path = os.path.join(d, "scn.ndjson"), os.path.join(d, "out.ndjson")
+    with open(scn_path, "w") as f:
+        for s in scns:
+            f.write(json.dumps(scn_line(s)) + "\n")
+    results = run_harness(ctx, scn_path, out_path, len(scns))
+    todo = []
+    for s in scns:
+        for r in results[s["id"]]:
+            lc["executions"] += len(r["m"])
+            for m in r["m"]:
+                lc["modes"][m] = lc["modes"].get(m, 0) + 1
+            todo.append((s, r))
+    for m in LONG_MODES:
+        if lc["modes"].get(m, 0) != n:
+            raise vlib.Undecided("long inputs: read schedule '%s' ran %d of %d inputs" % (m, lc["modes"].get(m, 0), n))
+    verdicts = judge(ctx, [dict(id=i + 1, keys=s["keys"], obs=r["obs"]) for i, (s, r) in enumerate(todo)], "long")
+    lc["judged_by_tlc"] = len(todo)
+    rejected = []
+    for i, (s, r) in enumerate(todo):
+        v = verdicts[i + 1]
+        if not v["wellformed"]:
+            raise vlib.Undecided("long input %d is not a well-formed input according to ConsoleJudge.WellFormed (generator bug)" % s["id"])
+        if v["accept"] and v["literals"] and not r.get("err"):
+            lc["accepted"] += len(r["m"])
+            if s["id"] == 1:
+                lc["statements"] = v["stmts"]
+        else:
+            rejected.append(dict(scn=s, run=r, verdict=v, diff=first_diff(text(s["keys"]), [text(o) for o in r["obs"]])))
+    lc["rejected"] = sum(len(x["run"]["m"]) for x in rejected)
+    s0 = scns[0]
+    cov["samples"].append(dict(long_input=text(s0["keys"]), bytes=len(s0["keys"]), schedules=LONG_MODES,
+                               observed=[dict(schedules=x["m"], statements=[text(o) for o in x["obs"]]) for x in results[1]]))
+    return confirm(ctx, rejected, "long")
+
+
 def new_cov():
     return dict(states=0, transitions=0, traces_validated_against_impl=0, samples=[], exhaustive=True, scenarios=0,
                 executions=0, modes={}, kinds={}, paste_indicator_returns=0, mismatch_groups=0, judged_by_tlc=0,
-                rejected_by_model_invariant=0, drift=0, drift_samples=[], rejected=0, rejected_by_signature={}, configs=[])
+                rejected_by_model_invariant=0, drift=0, drift_samples=[], rejected=0, rejected_by_signature={}, configs=[],
+                long=dict(inputs=0, executions=0, bytes_min=0, bytes_max=0, statements=0, judged_by_tlc=0, accepted=0,
+                          rejected=0, modes={}, kinds={}, straddles={}, multibyte_straddling_a_read_boundary=0))
 
 
 def run_replay(ctx):
@@ -256,20 +497,21 @@ def run_replay(ctx):
     d = ctx.sub("replay")
     scn_path, out_path = os.path.join(d, "scn.ndjson"), os.path.join(d, "out.ndjson")
     with open(scn_path, "w") as f:
-        f.write(json.dumps(dict(id=1, keys=keys)) + "\n")
+        f.write(json.dumps(scn_line(dict(id=1, keys=keys, modes=p.get("modes")))) + "\n")
     runs = run_harness(ctx, scn_path, out_path, 1)[1]
     verdicts = judge(ctx, [dict(id=i + 1, keys=keys, obs=r["obs"]) for i, r in enumerate(runs)], "replay")
     bad = 0
     for i, r in enumerate(runs):
         v = verdicts[i + 1]
         ok = v["accept"] and v["literals"] and not r.get("err")
-        print("replay input=%r schedules=%s observed=%r %s" % (text(keys), ",".join(r["m"]), [text(o) for o in r["obs"]],
+        print("replay input=%r schedules=%s observed=%r %s" % (text(keys)[:300], ",".join(r["m"]), [text(o)[:80] for o in r["obs"]][:12],
                                                               "accepted" if ok else "REJECTED by Console.tla"), flush=True)
         if not ok:
             bad += 1
             naive = p.get("observed_bytes") if p.get("signature") == FINDING else None
             known = naive is not None and r["obs"] == naive
             vlib.report_violation(ctx, dict(kind="console-replay", signature=p.get("signature", "replay"), keys=keys,
+                                            modes=p.get("modes") or MODES,
                                             input=text(keys), read_schedules=r["m"], expected=p.get("expected"),
                                             observed=[text(o) for o in r["obs"]], observed_bytes=r["obs"],
                                             expected_bytes=p.get("expected_bytes"), tlc_verdict=v, replay_of=ctx.replay),
@@ -282,7 +524,11 @@ ASSUMPTIONS = [
     "the in-package harness zz_verif_console_test.go only feeds bytes to Terminal.ReadLine and copies what it returns",
     "Enter is byte 13; a line break inside a literal is outside the property (not expressible in mkdb's SQL)",
     "ErrPasteIndicator returned together with a line is not an error (the line is still handed over)",
-    "bounded: all key sequences up to MaxKeys over {letters, space, ;, ', \"} plus Enter; unbounded lengths are not proved",
+    "bounded: all key sequences up to MaxKeys over {letters, space, ;, ', \", backslash} plus Enter; beyond that only "
+    "seeded random inputs of 200..1200 bytes; unbounded lengths are not proved",
+    "inside a literal a backslash makes the next character literal (mkdb's SQL scanner); outside it is ordinary",
+    "long inputs: the generator only composes bytes; that an input obeys the environment assumption (WellFormed) and "
+    "what its statements are is evaluated by TLC",
 ]
 
 
@@ -291,7 +537,7 @@ def run(ctx):
         return run_replay(ctx)
     cov = new_cov()
     all_rejected = []
-    for idx, (letters, maxkeys, maxenters) in enumerate(MC[ctx.tier]):
+    for idx, (letters, extra, maxkeys, maxenters) in enumerate(MC[ctx.tier]):
         scns = []
         d = ctx.sub("c20-%d" % idx)
         scn_path, out_path = os.path.join(d, "scn.ndjson"), os.path.join(d, "out.ndjson")
@@ -300,7 +546,7 @@ def run(ctx):
                 o["id"] = len(scns) + 1
                 scns.append(o)
                 f.write('{"id":%d,"keys":%s}\n' % (o["id"], json.dumps(o["keys"])))
-            res = vlib.run_tlc(ctx, "ConsoleMC", "ConsoleMC_gen.cfg", cfg_text=mc_cfg(letters, maxkeys, maxenters),
+            res = vlib.run_tlc(ctx, "ConsoleMC", "ConsoleMC_gen.cfg", cfg_text=mc_cfg(letters, extra, maxkeys, maxenters),
                                tag=str(idx), timeout=1500, on_scn=on_scn)
         vlib.tlc_must_ok(ctx, res, "ConsoleMC %d" % idx)
         if not scns:
@@ -308,7 +554,7 @@ def run(ctx):
         cov["states"] += res.distinct
         cov["transitions"] += res.generated
         cov["scenarios"] += len(scns)
-        cov["configs"].append(dict(letters=letters, max_keys=maxkeys, max_enters=maxenters, distinct=res.distinct,
+        cov["configs"].append(dict(letters=letters, extra=extra, max_keys=maxkeys, max_enters=maxenters, distinct=res.distinct,
                                    generated=res.generated, scenarios=len(scns), tlc_wall_s=round(res.wall, 1),
                                    tainted=sum(1 for s in scns if s["taint"])))
         for s in scns:
@@ -338,9 +584,10 @@ def run(ctx):
         raise vlib.Undecided("vacuous: bracketed paste never produced ErrPasteIndicator")
     if not cov["samples"]:
         raise vlib.Undecided("no sample scenario found for the evidence file")
+    all_rejected += run_long(ctx, cov)
     cov["rejected"] = len(all_rejected)
     cov["rejected_by_signature"] = report(ctx, all_rejected)
     if cov["drift"]:
         ctx.note("%d executions differed from the machine's output only in whitespace between tokens (accepted by TLC)" % cov["drift"])
-    cov["traces_validated_against_impl"] = cov["executions"]
+    cov["traces_validated_against_impl"] = cov["executions"] + cov["long"]["executions"]
     vlib.write_evidence(ctx, "model_checking", cov, assumptions=ASSUMPTIONS)
